@@ -257,3 +257,67 @@ def escape_stream(rng, n):
         k = rng.below(5)
         out.append(a + "".join(rng.choice(atoms) for _ in range(k)) + b)
     return out
+
+
+# ------------------------------------------------------------------ lexeme-level sampler for open code (C11)
+NAME_START = list("abcdefxyzABDTNX_") + ["é", "ы", "中"]
+NAME_CONT = NAME_START + list("0123456789") + ["̀", "·"]
+SYMS = list("()[]{}!|^~+-<>=.,:$@#?&%/*;`\\") + ["¦", "¬", "∘", "**", "||", "!!", "<=", ">=", "<>", "><", "^=", "~=", "=*", "¬=", "¦¦"]
+WSS = [" ", "  ", "\t", "\n", "\r\n", " ", " ", "　", "\u0085", "\x0b", "\x0c", " "]
+
+
+def _name(rng, maxlen=6):
+    return rng.choice(NAME_START) + "".join(rng.choice(NAME_CONT) for _ in range(rng.below(maxlen)))
+
+
+def _digits(rng, lo=0, hi=4):
+    return "".join(rng.choice("0123456789") for _ in range(lo + rng.below(hi - lo + 1)))
+
+
+def random_lexeme(rng):
+    """one lexeme spelled from its grammar (valid, borderline or malformed)"""
+    k = rng.below(16)
+    if k == 0:
+        return rng.choice(WSS)
+    if k == 1:
+        return _name(rng)
+    if k == 2:      # character formats: $ name? width? . precision?
+        return "$" + (_name(rng, 4) if rng.below(3) else "") + _digits(rng, 0, 2) + rng.choice([".", ".", "", ".."]) + _digits(rng, 0, 2)
+    if k == 3:      # numbers: digits [. digits] [e [sign] digits] [x]
+        s = _digits(rng, 0, 3) + rng.choice(["", ".", "", "."]) + _digits(rng, 0, 3)
+        if rng.below(3) == 0:
+            s += rng.choice("eE") + rng.choice(["", "+", "-"]) + _digits(rng, 0, 3)
+        if rng.below(3) == 0:
+            s = rng.choice("0123456789") + "".join(rng.choice("0123456789abcdefABCDEF") for _ in range(rng.below(6))) + rng.choice(["x", "X", "", "."])
+        return s
+    if k in (4, 5):  # quoted literals with suffix-like followers
+        q = rng.choice("'\"")
+        body = "".join(rng.choice(["a", " ", ";", q + q, "'" if q == '"' else '"', "\n", "4", "1", ",", "f", "g", "ы", "*", "/"]) for _ in range(rng.below(6)))
+        close = q if rng.below(8) else ""
+        suf = rng.choice(["", "", "b", "d", "dt", "n", "t", "x", "X", "DT", "dT", "dx", "tt", "e", "_", "1", "bx"])
+        return q + body + close + suf
+    if k == 6:
+        return rng.choice(["/*", "/* c */", "/**/", "/*/", "/***/", "/* * / */", "/*a*/*", "/*\n*/"])
+    if k == 7:
+        return rng.choice(["*", "* c;", "*;", "**", "* 'a;' ;", "* /* ; */ x;", "*\n;"])
+    if k == 8:      # datalines blocks and near misses
+        w = rng.choice(["datalines", "DataLines", "cards", "LINES", "datalines4", "cards4", "lines4", "dataline", "cards5", "datalines44"])
+        gap = rng.choice(["", " ", "\n", "/*c*/", " \t "])
+        data = "".join(rng.choice(["1 2", "\n", ";", "a", ";;;", ";;;;", " ", "\n;", "\n;;;;", "*"]) for _ in range(rng.below(6)))
+        return w + gap + rng.choice([";", ";", "", ";;"]) + data
+    if k == 9:
+        return ";"
+    if k == 10:
+        return rng.choice(["_all_", "and", "OR", "eq", "ne", "gt", "lt", "ge", "le", "in", "not", "Else", "then", "corr", "corresponding", "exec", "execute", "null", "_null_", "data", "run", "eqt", "notin", "ine"])
+    if k == 11:
+        return rng.choice(["&", "&&", "& ", "&1", "&;", "%", "% ", "%1", "%;", "%%", "%(", "%'"])
+    return rng.choice(SYMS)
+
+
+def lexeme_stream(rng, n, maxlen=7):
+    out = []
+    while len(out) < n:
+        s = "".join(random_lexeme(rng) for _ in range(1 + rng.below(maxlen)))
+        if is_macro_free(s):
+            out.append(s)
+    return out
